@@ -181,7 +181,7 @@ fn main() {
             mdwh::elfcases::live_mappings(&workdir, &mut tr);
         }
         "mkelf" => {
-            // mkelf --kind elf|non_elf|elf_corrupt|elf_undyn|elf_noid|elf_zeroid|elf_nosoname --soname NAME --idseed N   (writes to --out)
+            // mkelf --kind elf|non_elf|elf_corrupt|elf_undyn|elf_badnote|elf_binnote|elf_noid|elf_zeroid|elf_nosoname --soname NAME --idseed N   (writes to --out)
             let kind = flag_str(&args.extra, "--kind").unwrap_or_else(|| "elf".into());
             let mut spec = mdwh::elfgen::Spec::default();
             if let Some(sn) = flag_str(&args.extra, "--soname") { spec.soname = if sn.is_empty() { None } else { Some(sn) }; }
@@ -195,6 +195,14 @@ fn main() {
             if kind == "elf_badnote" {
                 // the first (only) note of the segment and of the section claims a name longer than the segment: it cannot be decoded
                 for f in ["phnote.namesz", "secnote.namesz"] { mdwh::elfgen::set_field(&mut b, f, 0xffff_fff0); }
+            }
+            if kind == "elf_binnote" {
+                // the note of the segment and of the section has a well-formed header but a name that is not text ("GNU\0" -> ff fe fd 00):
+                // a decoder that takes names as UTF-8 reports an error for it - a different one than for a note that does not fit
+                for f in ["phnote.namesz", "secnote.namesz"] {
+                    let at = b.fields[f].0 + 12;
+                    b.bytes[at..at + 4].copy_from_slice(&[0xff, 0xfe, 0xfd, 0x00]);
+                }
             }
             if kind == "elf_undyn" {
                 // the dynamic segment / section ends right after its last real entry: no DT_NULL within the declared size
